@@ -43,8 +43,10 @@
 #define MAXFD 8192
 #define MAXRULES 8
 
-static char root[4096];
-static size_t root_len = 0;
+#define MAXROOTS 4
+static char roots[MAXROOTS][4096];
+static size_t root_lens[MAXROOTS];
+static int nroots = 0;
 static int log_fd = -1;
 static int ficlone_emulate = 0;
 static atomic_long seq = 0;
@@ -71,6 +73,7 @@ static int nrules = 0;
 
 static char *fdpath[MAXFD];
 static pthread_mutex_t fd_mu = PTHREAD_MUTEX_INITIALIZER;
+static pthread_mutex_t emu_mu = PTHREAD_MUTEX_INITIALIZER;
 static int initialized = 0;
 
 #define REAL(name) static __typeof__(name) *real_##name = NULL; if (!real_##name) real_##name = dlsym(RTLD_NEXT, #name)
@@ -98,8 +101,15 @@ static void init(void) {
     initialized = 1;
     const char *r = getenv("FCV_ROOT");
     if (r && *r) {
-        strncpy(root, r, sizeof(root) - 1);
-        root_len = strlen(root);
+        /* ':'-separated list of prefixes */
+        char *dupr = strdup(r);
+        char *sv = NULL;
+        for (char *t = strtok_r(dupr, ":", &sv); t && nroots < MAXROOTS; t = strtok_r(NULL, ":", &sv)) {
+            strncpy(roots[nroots], t, sizeof(roots[0]) - 1);
+            root_lens[nroots] = strlen(roots[nroots]);
+            nroots++;
+        }
+        free(dupr);
     }
     const char *l = getenv("FCV_LOG");
     if (l && *l) log_fd = syscall(SYS_openat, AT_FDCWD, l, O_WRONLY | O_CREAT | O_APPEND | O_CLOEXEC, 0644);
@@ -177,8 +187,12 @@ static void init(void) {
 __attribute__((constructor)) static void ctor(void) { init(); }
 
 static int relevant(const char *p) {
-    if (!root_len || !p) return 0;
-    return strncmp(p, root, root_len) == 0 && (p[root_len] == '/' || p[root_len] == 0);
+    if (!p) return 0;
+    for (int i = 0; i < nroots; i++) {
+        size_t n = root_lens[i];
+        if (n && strncmp(p, roots[i], n) == 0 && (p[n] == '/' || p[n] == 0)) return 1;
+    }
+    return 0;
 }
 
 /* Makes `p` absolute (lexically) into out; dirfd-relative paths use the fd table. */
@@ -276,6 +290,7 @@ static int gate(char cls, const char *fn, const char *path, long *seq_out, int *
         if (kill_k == mk) {
             if (!kill_after) {
                 logcall(s, cls, fn, path, NULL, -1, 0, "KILLED-BEFORE");
+                pthread_mutex_lock(&emu_mu);
                 syscall(SYS_exit_group, 137);
             }
             *kill_after_out = 1;
@@ -301,6 +316,7 @@ static void after(int ka, long s, char cls, const char *fn, const char *p1, cons
     logcall(s, cls, fn, p1, p2, ret, ret < 0 ? err : 0, NULL);
     if (ka) {
         logcall(s, cls, fn, p1, p2, ret, err, "KILLED-AFTER");
+        pthread_mutex_lock(&emu_mu);
         syscall(SYS_exit_group, 137);
     }
 }
@@ -585,7 +601,9 @@ int ioctl(int fd, unsigned long req, ...) {
             struct stat64 st;
             REAL(fstat64);
             r = -1;
-            if (real_fstat64(src, &st) == 0 && syscall(SYS_ftruncate, fd, (off_t)0) == 0) {
+            /* a real clone is atomic: no kill from another thread in the middle of the emulation */
+            pthread_mutex_lock(&emu_mu);
+            if (real_fstat64(src, &st) == 0) {
                 char buf[65536];
                 off_t off = 0;
                 r = 0;
@@ -598,8 +616,10 @@ int ioctl(int fd, unsigned long req, ...) {
                     }
                     off += n;
                 }
+                if (r == 0 && syscall(SYS_ftruncate, fd, (off_t)st.st_size) != 0) r = -1;
             }
             e = errno;
+            pthread_mutex_unlock(&emu_mu);
         } else {
             r = real_ioctl(fd, req, arg);
             e = errno;
